@@ -894,6 +894,7 @@ class Polyhedron(Shape3D):
                 qs_dot_norm * (1j * face_form_factors * exp_qr)
             ) / q_sqs[~zero_q]
 
+        form_factor *= density
         return form_factor
 
     def is_inside(self, points):
